@@ -65,10 +65,23 @@ func (p *ProjectionParser) Parse(projection string, filter *Filter) (*Projection
 	if err != nil {
 		return nil, err
 	}
+	// A rejected expression must leave no trace in the parser:
+	// otherwise the keys it named would stay excluded from the
+	// .config and .fullname groups of the other projections (and of
+	// the residue) although no projection has them.
+	oldConfigKeys := make(map[string]bool, len(p.configKeys))
+	for k := range p.configKeys {
+		oldConfigKeys[k] = true
+	}
+	nFullnameKeys := len(p.fullnameKeys)
+	oldHaveConfig, oldHaveFullname := p.haveConfig, p.haveFullname
 	var filterParts []filterFn
 	for _, part := range parts {
 		f, err := p.makeProjection(proj, projection, part)
 		if err != nil {
+			p.configKeys = oldConfigKeys
+			p.fullnameKeys = p.fullnameKeys[:nFullnameKeys]
+			p.haveConfig, p.haveFullname = oldHaveConfig, oldHaveFullname
 			return nil, err
 		}
 		if f != nil {
